@@ -78,3 +78,77 @@ class attached:
     def __exit__(self, *a):
         detach(self.code)
         return False
+
+
+# --------------------------------------------------------------------------------------
+# reach: which lines of the anchored library files did the workload actually execute?
+# (sys.monitoring LINE events with DISABLE after the first hit: each location fires once,
+#  so the cost is negligible; tool id 4 is separate from the invariant probes above)
+# --------------------------------------------------------------------------------------
+COV_TOOL = 4
+_cov = {"on": False, "hits": set(), "prefix": None}
+
+
+def _cov_line(code, line):
+    fn = code.co_filename
+    if fn.startswith(_cov["prefix"]):
+        _cov["hits"].add((fn[len(_cov["prefix"]):], line))
+    return sys.monitoring.DISABLE
+
+
+def coverage_start(repo_prefix):
+    """record executed lines of every file under <repo_prefix>/hypergraphx/"""
+    if _cov["on"]:
+        return
+    _cov["prefix"] = repo_prefix.rstrip("/") + "/"
+    sys.monitoring.use_tool_id(COV_TOOL, "hgxmon-reach")
+    sys.monitoring.register_callback(COV_TOOL, E.LINE, _cov_line)
+    sys.monitoring.set_events(COV_TOOL, E.LINE)
+    _cov["on"] = True
+
+
+def coverage_hits():
+    return sorted(_cov["hits"])
+
+
+def executable_lines(path):
+    """line numbers that carry code in a source file (from the compiled code objects)"""
+    import types
+
+    with open(path) as fh:
+        src = fh.read()
+    top = compile(src, path, "exec")
+    lines = set()
+    stack = [top]
+    while stack:
+        c = stack.pop()
+        for _, _, ln in c.co_lines():
+            if ln is not None:
+                lines.add(ln)
+        for k in c.co_consts:
+            if isinstance(k, types.CodeType):
+                stack.append(k)
+    # docstring-only lines and def/class headers are counted by co_lines as well; good enough for a reach figure
+    return lines
+
+
+def functions_in(path):
+    """(qualified name, first line, last line) of every function in a file"""
+    import ast
+
+    with open(path) as fh:
+        tree = ast.parse(fh.read())
+    out = []
+
+    def walk(node, prefix):
+        for ch in ast.iter_child_nodes(node):
+            if isinstance(ch, (ast.FunctionDef, ast.AsyncFunctionDef)):
+                out.append((prefix + ch.name, ch.lineno, ch.end_lineno))
+                walk(ch, prefix + ch.name + ".")
+            elif isinstance(ch, ast.ClassDef):
+                walk(ch, prefix + ch.name + ".")
+            else:
+                walk(ch, prefix)
+
+    walk(tree, "")
+    return out
